@@ -715,9 +715,11 @@ impl<Backing : AsRef<[u32]> + AsMut<[u32]>> DrawTarget<Backing> {
 
         if self.transform == Transform::identity() && integer_rect && self.clip_stack.is_empty() {
             let bounds = intrect(0, 0, self.width, self.height);
-            // a negative width or height still describes the rectangle between the two corners
-            let mut irect = intrect(ix.min(ix + iwidth), iy.min(iy + iheight),
-                                    ix.max(ix + iwidth), iy.max(iy + iheight));
+            // a negative width or height still describes the rectangle between the two corners.
+            // The far corner of a huge rectangle stops at the end of the coordinate range instead of
+            // wrapping around to the other side of the surface.
+            let (ix2, iy2) = (ix.saturating_add(iwidth), iy.saturating_add(iheight));
+            let mut irect = intrect(ix.min(ix2), iy.min(iy2), ix.max(ix2), iy.max(iy2));
             irect = match irect.intersection(&bounds) {
                 Some(irect) => irect,
                 _ => return,
